@@ -16,7 +16,7 @@ use std::sync::Arc;
 pub const COUNTERS: &[&str] = &[
     "menu_histories", "menu_operations", "menu_claimable_states", "menu_claims_executed", "menu_illegal_menu_moves_refused",
     "filler_histories", "filler_plies", "filler_boundary_claims_executed", "filler_claimable_plies", "filler_deviations_pawn", "filler_deviations_capture",
-    "filler_deviations_rook_loses_right", "filler_deviations_king_loses_rights", "filler_deviations_castle", "filler_event_slots_unavailable", "t3_tolerated",
+    "filler_deviations_rook_loses_right", "filler_deviations_king_loses_rights", "filler_deviations_castle", "filler_deviations_offer", "filler_event_slots_unavailable", "t3_tolerated",
 ];
 
 struct MenuRoot {
@@ -151,8 +151,10 @@ enum Event {
     RookLosesRight,
     KingLosesRights,
     Castle,
+    /// a non-move action in the log: an (unaccepted) draw offer; position and clock unchanged
+    Offer,
 }
-const EVENTS: [Event; 5] = [Event::PawnMove, Event::Capture, Event::RookLosesRight, Event::KingLosesRights, Event::Castle];
+const EVENTS: [Event; 6] = [Event::PawnMove, Event::Capture, Event::RookLosesRight, Event::KingLosesRights, Event::Castle, Event::Offer];
 
 fn event_move(p: &RefPos, e: Event) -> Option<RMove> {
     let ms = p.legal_moves();
@@ -165,33 +167,41 @@ fn event_move(p: &RefPos, e: Event) -> Option<RMove> {
             Event::RookLosesRight => k == Some(Kind::R) && rights_change && !p.is_capture(*m),
             Event::KingLosesRights => k == Some(Kind::K) && rights_change && !p.is_castle(*m) && !p.is_capture(*m),
             Event::Castle => p.is_castle(*m),
+            Event::Offer => false,
         }
     })
 }
 
 /// Build one history: filler with the given (ply, event) deviations spliced in; total length
 /// long enough to pass 100 on the clock after the last reset.
-fn build_history(start: &RefPos, devs: &[(usize, Event)], horizon: usize) -> Option<Vec<RMove>> {
+fn build_history(start: &RefPos, devs: &[(usize, Event)], horizon: usize) -> Option<Vec<GOp>> {
     let mut p = *start;
     let mut seen: BTreeSet<RefPos> = BTreeSet::new();
     let mut k0 = p;
     k0.dp = -1;
     seen.insert(k0);
-    let mut hist: Vec<RMove> = vec![];
+    let mut hist: Vec<GOp> = vec![];
+    let mut plies = 0usize;
     let mut di = 0;
-    while hist.len() < horizon {
+    while plies < horizon {
         let next_dev = devs.get(di).map(|d| d.0).unwrap_or(usize::MAX);
-        if hist.len() == next_dev {
+        if plies == next_dev {
+            if devs[di].1 == Event::Offer {
+                hist.push(GOp::Offer(if di % 2 == 0 { Col::W } else { Col::B }));
+                di += 1;
+                continue;
+            }
             let m = event_move(&p, devs[di].1)?;
             p = p.apply(m);
-            hist.push(m);
+            hist.push(GOp::Move(m));
+            plies += 1;
             let mut k = p;
             k.dp = -1;
             seen.insert(k);
             di += 1;
             continue;
         }
-        let want = next_dev.min(horizon) - hist.len();
+        let want = next_dev.min(horizon) - plies;
         let mut seg = vec![];
         let mut nodes = 0;
         if !filler(&p, want, &mut seen, &mut seg, &mut nodes) {
@@ -199,7 +209,8 @@ fn build_history(start: &RefPos, devs: &[(usize, Event)], horizon: usize) -> Opt
         }
         for m in seg {
             p = p.apply(m);
-            hist.push(m);
+            hist.push(GOp::Move(m));
+            plies += 1;
         }
     }
     Some(hist)
@@ -211,7 +222,7 @@ const FILLER_ROOTS: &[&str] = &[
     "r3k1nr/7p/8/3b4/3B4/8/7P/R3K1NR b KQkq - 0 1",
 ];
 
-fn run_history(run: &Run, start: &RefPos, hist: &[RMove], devs: &[(usize, Event)]) {
+fn run_history(run: &Run, start: &RefPos, hist: &[GOp], devs: &[(usize, Event)]) {
     let mut refg = RefGame::new(*start);
     let mut lib = match new_game(start) {
         Ok(g) => g,
@@ -223,8 +234,8 @@ fn run_history(run: &Run, start: &RefPos, hist: &[RMove], devs: &[(usize, Event)
     let mut ops: Vec<GOp> = vec![];
     run.add("filler_histories", 1);
     run.states.fetch_add(1, Ordering::Relaxed);
-    for m in hist {
-        let op = GOp::Move(*m);
+    for op in hist {
+        let op = *op;
         ops.push(op);
         guard::crumb_text(&format!("filler history from {} deviations {:?} ply {}", start.fen(), devs, ops.len()));
         run.transitions.fetch_add(1, Ordering::Relaxed);
@@ -235,8 +246,8 @@ fn run_history(run: &Run, start: &RefPos, hist: &[RMove], devs: &[(usize, Event)
                 return;
             }
             Ok(info) => {
-                if !info.accepted {
-                    eprintln!("MACHINERY FAILURE: filler move {m} refused by both sides?");
+                if !info.accepted && matches!(op, GOp::Move(_)) {
+                    eprintln!("MACHINERY FAILURE: filler move {} refused by both sides?", op.name());
                     std::process::exit(2);
                 }
             }
@@ -276,7 +287,7 @@ fn run_history(run: &Run, start: &RefPos, hist: &[RMove], devs: &[(usize, Event)
     }
 }
 
-pub const RULE: &str = "Regime A (repetition): 8 roots, each with a fixed menu of 7-10 moves (knight and king shuffles; rooks/kings leaving and re-entering home squares so that placement repeats with different rights; a double push whose en-passant right exists only on the first occurrence; triangulation; history-cutting captures and pawn moves); EVERY sequence over menu + declare_draw + (at most one) offer_draw to depth 9 (quick) / 11-12 (thorough); menu moves illegal in the current state are attempted and must be refused. Regime B (fifty-move boundary, deviation bounding): from 3 roots a deterministic self-avoiding filler of reversible, rights-preserving moves (depth-first, first in sorted order) is the default behaviour; deviations are events spliced in at ply i (quiet pawn move, capture, rook move losing a right, king move losing both, castling), every i in 0..=104 x every event kind with 1 deviation (quick) and every pair with 2 deviations (thorough); can_declare_draw() is compared after EVERY ply and at clock 95..=104 declare_draw() is also executed on a clone. Oracle: FIDE 9.2/9.3 on the reference game (no result, and clock >= 100 or current position occurred >= 3 times; identity = placement, side, rights, en-passant possibility; histories whose verdict differs between 'a legal en-passant capture exists' and 'an enemy pawn stands beside' are not judged, T3). states = histories, transitions = operations. distinct_nontrivial = histories/plies at which a claim is due";
+pub const RULE: &str = "Regime A (repetition): 8 roots, each with a fixed menu of 7-10 moves (knight and king shuffles; rooks/kings leaving and re-entering home squares so that placement repeats with different rights; a double push whose en-passant right exists only on the first occurrence; triangulation; history-cutting captures and pawn moves); EVERY sequence over menu + declare_draw + (at most one) offer_draw to depth 9 (quick) / 11-12 (thorough); menu moves illegal in the current state are attempted and must be refused. Regime B (fifty-move boundary, deviation bounding): from 3 roots a deterministic self-avoiding filler of reversible, rights-preserving moves (depth-first, first in sorted order) is the default behaviour; deviations are events spliced in at ply i (quiet pawn move, capture, rook move losing a right, king move losing both, castling, an unaccepted draw offer = a non-move entry in the action log), every i in 0..=104 x every event kind with 1 deviation (quick) and every pair with 2 deviations (thorough); can_declare_draw() is compared after EVERY ply and at clock 95..=104 declare_draw() is also executed on a clone. Oracle: FIDE 9.2/9.3 on the reference game (no result, and clock >= 100 or current position occurred >= 3 times; identity = placement, side, rights, en-passant possibility; histories whose verdict differs between 'a legal en-passant capture exists' and 'an enemy pawn stands beside' are not judged, T3). states = histories, transitions = operations. distinct_nontrivial = histories/plies at which a claim is due";
 
 pub fn run(tier: Tier) -> i32 {
     let run = Arc::new(Run::new("C11", tier, COUNTERS));
@@ -352,6 +363,7 @@ pub fn run(tier: Tier) -> i32 {
                             Event::RookLosesRight => "filler_deviations_rook_loses_right",
                             Event::KingLosesRights => "filler_deviations_king_loses_rights",
                             Event::Castle => "filler_deviations_castle",
+                            Event::Offer => "filler_deviations_offer",
                         },
                         1,
                     );
@@ -366,7 +378,7 @@ pub fn run(tier: Tier) -> i32 {
     run.note("filler_roots", json!(FILLER_ROOTS));
     run.sample(json!({"kind": "menu history", "start": MENU_ROOTS[0].fen, "ops": ["g1f3", "g8f6", "f3g1", "f6g8", "g1f3", "g8f6", "f3g1", "f6g8", "declare_draw"], "expect": "claim granted: third occurrence of the start position"}));
     if let Some(h) = build_history(&RefPos::from_fen(FILLER_ROOTS[1]).unwrap(), &[(60, Event::RookLosesRight)], 166) {
-        run.sample(json!({"kind": "filler history", "start": FILLER_ROOTS[1], "deviation": "ply 60: rook move that drops the castling right", "plies": h.len(), "first_moves": h.iter().take(12).map(|m| m.uci()).collect::<Vec<_>>(), "deviation_move": h[60].uci()}));
+        run.sample(json!({"kind": "filler history", "start": FILLER_ROOTS[1], "deviation": "ply 60: rook move that drops the castling right", "plies": h.len(), "first_moves": h.iter().take(12).map(|m| m.name()).collect::<Vec<_>>(), "deviation_move": h[60].name()}));
     }
     run.finish("model_checking", RULE, true, json!({"deviation_histories_planned": total}))
 }
